@@ -96,6 +96,10 @@ def _has_nonscalar(obj):
 
 
 def _obtain(case):
+    if 'text_model' in case:
+        from vf.props import c18  # pylint: disable=import-outside-toplevel
+        built = lib.call(c18.build, case['type'], case['text_model'])
+        return built.value if built.ok else None
     if 'spec' in case:
         built = lib.call(specs.build, case['spec'])
         if not built.ok:
@@ -106,6 +110,14 @@ def _obtain(case):
     cls = lib.resolve(case['cls'])
     parsed = lib.call(cls.parse_immutable, bytes.fromhex(case['hex']))
     return parsed.value[0] if parsed.ok else None
+
+
+def _python_equal(first, second):
+    """Equality as a caller sees it (==): an IntEnum member equals its number, a dict equals an OrderedDict."""
+    try:
+        return bool(first == second)
+    except Exception:  # pylint: disable=broad-except
+        return False
 
 
 def judge(case):
@@ -154,7 +166,8 @@ def judge(case):
         composed = lib.call(obj.compose)
         if composed.ok:
             reparsed = lib.call(type(obj).parse_exact_size, bytes(composed.value))
-            if reparsed.ok and lib.same(reparsed.value, obj) is None and _texts(serialise(reparsed.value)) != texts:
+            if reparsed.ok and (lib.same(reparsed.value, obj) is None or _python_equal(reparsed.value, obj)) \
+                    and _texts(serialise(reparsed.value)) != texts:
                 findings.append(Finding('nondeterministic:roundtrip/%s' % name, {
                     'a': texts[0][:160], 'b': _texts(serialise(reparsed.value))[0][:160]}))
             # the same object after it has been composed (an earlier operation of the same process) still renders
@@ -329,7 +342,30 @@ def _parsed_job(arg):
     return stats
 
 
+def _text_job(arg):
+    """Text families built through the public constructors from the grammar models of C18 (objects that did not come
+    out of a parser: the original of a parse-compose round trip)."""
+    type_name, examples, seed_value, budget_s = arg
+    from vf.gen import textgen  # pylint: disable=import-outside-toplevel
+    from vf.props import c18  # pylint: disable=import-outside-toplevel
+    stats = Stats()
+    name = c18.L().value_classes[type_name].__name__
+
+    def case_fn(model, inner):
+        case = {'text_model': model, 'type': type_name}
+        findings, _texts_ = _record(inner, case, name)
+        inner.labels['text-model'] += 1
+        return findings
+    hyp.explore(textgen.models(type_name), case_fn, stats, examples, seed_value, budget_s=budget_s)
+    for entry in stats.findings.values():
+        if 'text_model' not in entry['case']:
+            entry['case'] = {'text_model': entry['case'], 'type': type_name}
+    return stats
+
+
 def _job(arg):
+    if arg[0] == 'text':
+        return _text_job(arg[1:])
     return _spec_job(arg[1:]) if arg[0] == 'spec' else _parsed_job(arg[1:])
 
 
@@ -462,6 +498,8 @@ def run(ctx):
     shards = 32
     jobs = _spec_jobs(ctx, examples, budget_s) + [
         ('parsed', index, shards, mutants, ctx.derive_seed('parsed', index), budget_s) for index in range(shards)]
+    from vf.gen import textgen  # pylint: disable=import-outside-toplevel
+    jobs += [('text', type_name, examples, ctx.derive_seed('text', type_name), budget_s) for type_name in textgen.TYPES]
     stats = pool.run_shards(_job, jobs)
     _hashseed_relation(ctx, stats)
     _history_relation(ctx, stats)
